@@ -202,7 +202,7 @@ pub fn subchecks(tier: Tier) -> Vec<SubCheck> {
         generated(
             "generated_pairs",
             "pairs of strings <= 64: independent, derived by edits, normalised pairs with a transplanted window of 5..8 symbols (also judged through FuzzyHashCompareTarget and is_comparison_candidate in the eq / near-lt / near-gt relations), constant and binary strings, strings shorter than 7; non-trivial = both >= 7 long; distinct by (a,b)",
-            tier.pick(1_000_000, 15_000_000),
+            tier.pick(4_000_000, 40_000_000),
             strategy,
             eval,
         ),
